@@ -138,6 +138,13 @@ def schemas():
         'ord-modal-exist': ([M(Q('Existential', x, Fx)), L(Q('Universal', x, Neg(Fx))), Fa], b),
         'ord-modal-exist2': ([Fa, M(Q('Existential', x, O('Conjunction', Fx, Gx))), L(Q('Universal', x, O('MaterialConditional', Fx, Neg(Gx))))], b),
         'ord-modal-univ': ([L(Q('Universal', x, Fx)), M(Neg(Fa))], b),
+        'ord-many-diamonds': ([L(M(a)), M(L(Neg(a))), M(b), M(c), M(A(3))], A(4)),
+        'ord-many-diamonds2': ([L(M(a)), M(b), M(c), L(O('MaterialConditional', b, L(Neg(a))))], A(4)),
+        'ord-ident-both': ([P(IDENT, ca, cb), P(IDENT, cb, ca), Fa], Fb),
+        'ord-ident-chain': ([P(IDENT, ca, cb), P(IDENT, cb, cc), Fa], P(F1, cc)),
+        'ident-mixed': ([P(IDENT, ca, cb), P(H2, ca, cb)], P(H2, cb, ca)),
+        'ident-mixed2': ([P(IDENT, ca, cb), P(H2, ca, ca)], P(H2, ca, cb)),
+        'ord-ident-binary': ([P(IDENT, ca, cb), P(H2, ca, cc), P(IDENT, cb, ca)], P(H2, cb, cc)),
         'ord-mono-modal': ([L(a), M(b), M(c)], O('Conjunction', M(O('Conjunction', a, b)), M(O('Conjunction', a, c)))),
     }
     return {k: {'prems': v[0], 'conc': v[1]} for k, v in out.items()}
